@@ -333,10 +333,16 @@ theorem run_transition_of_range (ph : Phys) (hv : ph.Valid) (inp : Inputs ℝ) (
     (i : Nat) (v : Vial ℝ) (hvi : sj.vials[i]? = some v) (h0 : 0 ≤ v.sigma) (h1 : v.sigma < 1) :
     (j + 1 < (runWith inp kCN).traj.size →
         (runWith inp kCN).traj[j + 1]? = some (step inp.p kCN j T sj)) ∧
+    (j + 1 = (runWith inp kCN).traj.size → (runWith inp kCN).final = step inp.p kCN j T sj) ∧
     ∃ v', (step inp.p kCN j T sj).vials[i]? = some v' ∧ IsTransition ph inp.p (j == kCN) j T sj i v v' := by
   have hrs := run_steps inp kCN
   simp only at hrs
-  refine ⟨fun h => hrs.2.2.2.1 j sj T hj hT h, ?_⟩
+  refine ⟨fun h => hrs.2.2.2.1 j sj T hj hT h, ?_, ?_⟩
+  · intro h
+    have hpos : 0 < (runWith inp kCN).traj.size := by omega
+    have e : (runWith inp kCN).traj.size - 1 = j := by omega
+    have := hrs.2.2.2.2 sj T (by rw [e]; exact hj) (by rw [e]; exact hT) hpos
+    rw [e] at this; exact this
   exact step_trichotomy ph hv inp.p hc hdt (j == kCN) j T sj i v hvi
     (fun _ => vial_trichotomy_admissible ph hv _ h0 h1)
 
